@@ -71,8 +71,23 @@ def rule_agreement(rule, repo, eng, ci, wname='stream_serialize', rname='stream_
         return None
     rule.consult(fw.qualname)
     rule.consult(fr.qualname)
+    gates = [n for n in notes if isinstance(n, tuple) and n and n[0] == 'gate']
     for n in notes:
-        rule.note('%s: %s' % (label, n))
+        if not isinstance(n, tuple):
+            rule.note('%s: %s' % (label, n))
+    from . import spec as _spec
+    for _g, thr, fields, item in gates:
+        want = getattr(_spec, 'VERSION_GATES', {}).get(label)
+        if want is None:
+            rule.undecided('%s:gate:%d' % (label, thr), site_of(fr, item.node), 'a version gate (>= %d) in a message that has none in the protocol table' % thr)
+            continue
+        first = next((f for f in fields if f), None)
+        exp = want.get(first)
+        if exp is None:
+            rule.undecided('%s:gate:%s' % (label, first), site_of(fr, item.node), 'version gate >= %d opens with `%s`, which the protocol table does not gate' % (thr, first))
+        else:
+            rule.check(thr == exp, '%s:gate:%s' % (label, first), site_of(fr, item.node), '%s and what follows is read from protocol version %d on' % (first, exp),
+                       'the reader takes `%s` from the wire only when the version is >= %d; the protocol carries it from version %d on (at version %d the field is on the wire but ignored)' % (first, thr, exp, exp))
     cmp_ = Comparator(width_of=width_resolver(repo, eng, ci))
     cmp_.seq(list(W), list(R))
     for n in cmp_.notes:
